@@ -100,7 +100,9 @@ func EventLog() []string {
 	out := make([]string, 0, len(sEvLog))
 	for _, e := range sEvLog {
 		site := "?"
-		if int(e.Site) < len(apd.VerifSites) {
+		if e.Site < 0 {
+			site = "lock-wait"
+		} else if int(e.Site) < len(apd.VerifSites) {
 			s := apd.VerifSites[e.Site]
 			site = fmt.Sprintf("%s:%d", s.File, s.Line)
 		}
